@@ -685,6 +685,8 @@ class Interp:
             elif la >= 0 and lb >= 0:
                 top = (1 << max(ha.bit_length(), hb.bit_length())) - 1
                 mlo, mhi = (max(la, lb) if op == "BitOr" else 0), min(top, ha + hb)
+                if op == "BitOr":
+                    prov = ("bitor", (a.vid, b.vid), None)
             else:
                 mlo, mhi = tlo, thi
         elif base in ("Shl", "Shr"):
@@ -697,6 +699,8 @@ class Interp:
             else:
                 lb2, hb2 = lb, hb
             if base == "Shl":
+                if lb2 == hb2:
+                    prov = ("shl", (a.vid,), lb2)
                 if la >= 0:
                     mlo, mhi = la << lb2, ha << hb2
                 else:
